@@ -1290,7 +1290,7 @@ func genC15(r *Rand, p *Plan, tier string) {
 		cs.Ops = append(cs.Ops, Op{Kind: PickOf(r, "close", "close", "idle", "reset")})
 		p.Scen.Clients = append(p.Scen.Clients, cs)
 	}
-	if r.Chance(20) {
+	if r.Chance(30) {
 		// shutdown racing with an accept: cancellation becomes enabled in the very step
 		// in which a client dials, and the shutdown path yields at its log calls
 		p.Family = "race-batches"
